@@ -4,6 +4,7 @@ import Z80.Gen.All
 import Z80.Spec.Koron
 import Z80.Spec.Interrupt
 import Z80.Spec.KoronIM0
+import Z80.Spec.KoronIM0B
 import Z80.RunModel
 import Z80.Spec.MemIO
 import Z80.Spec.Cim
